@@ -476,20 +476,45 @@ Definition pick_static {A} (first : ascii) (k : tree -> A) (dflt : A) : list (as
     | (d, child) :: r => if Ascii.eqb d first then k child else go r
     end.
 
-(** [fx2], [fx5]: the candidate repairs fixes/C03-F2.diff (the catch-all child's
-    values are matched with the child's own keys and the captures including the
-    rest of the path) and fixes/C03-F5.diff (a dead end at a node returns the
-    captures it was given instead of nil).  [false false] is the tree as it is. *)
+(** what findNode does with the answer of the wildcard child: found or "do not backtrack"
+    end the search ([Some]), otherwise the catch-all child is tried next ([None]) *)
+Definition wild_res (r : fres * list call) : option fres * list call :=
+  match r with
+  | (FPanic, cs) => (Some FPanic, cs)
+  | (FRes (Some x) tmp b, cs) => (Some (FRes (Some x) tmp b), cs)
+  | (FRes None _ false, cs) => (Some (FRes None [] false), cs)
+  | (FRes None _ true, cs) => (None, cs)
+  end.
+
+(** the catch-all child [c] of node [n]: its values are tried with (pinned) THIS node's keys
+    and the captures so far, (repaired, [fx2]) its own keys and the captures plus the rest of
+    the path; a failure consults the child's own flag (after the repair of C02-F1) *)
+Definition catch_part (fx2 : bool) (m : nat -> list string -> list string -> mres) (n c : tree)
+           (path : string) (caps1 : list string) : fres * list call :=
+  match try_values m (if fx2 then t_keys c else t_keys n)
+                   (if fx2 then caps1 ++ [path] else caps1) (t_values c) with
+  | (None, cs3) => (FPanic, cs3)
+  | (Some (Some v), cs3) => (FRes (Some (t_keys c, v)) (caps1 ++ [path]) false, cs3)
+  | (Some None, cs3) => (FRes None caps1 (t_bt c), cs3)
+  end.
+
+(** the node itself, reached with the whole path consumed *)
+Definition here_part (fx5 : bool) (m : nat -> list string -> list string -> mres) (n : tree)
+           (caps : list string) : fres * list call :=
+  if is_nil (t_values n) then (FRes None (if fx5 then caps else []) true, []) else
+  match try_values m (t_keys n) caps (t_values n) with
+  | (None, cs) => (FPanic, cs)
+  | (Some (Some v), cs) => (FRes (Some (t_keys n, v)) caps false, cs)
+  | (Some None, cs) => (FRes None (if fx5 then caps else []) (t_bt n), cs)
+  end.
+
+(** [fx2], [fx5]: the repairs of C03-F2 (the catch-all child's values are matched with the
+    child's own keys and the captures including the rest of the path) and C03-F5 (a dead end
+    at a node returns the captures it was given instead of nil).  [false false] is the pinned tree. *)
 Fixpoint find_node (fx2 fx5 : bool) (m : nat -> list string -> list string -> mres) (n : tree) (path : string)
          (caps : list string) {struct n} : fres * list call :=
   match path with
-  | EmptyString =>
-    if is_nil (t_values n) then (FRes None (if fx5 then caps else []) true, []) else
-    match try_values m (t_keys n) caps (t_values n) with
-    | (None, cs) => (FPanic, cs)
-    | (Some (Some v), cs) => (FRes (Some (t_keys n, v)) caps false, cs)
-    | (Some None, cs) => (FRes None (if fx5 then caps else []) (t_bt n), cs)
-    end
+  | EmptyString => here_part fx5 m n caps
   | String first _ =>
     (* static child *)
     let st :=
@@ -503,33 +528,21 @@ Fixpoint find_node (fx2 fx5 : bool) (m : nat -> list string -> list string -> mr
     | (FRes (Some x) caps1 b, cs) => (FRes (Some x) caps1 b, cs)
     | (FRes None caps1 false, cs) => (FRes None caps1 false, cs)
     | (FRes None caps1 true, cs1) =>
-      (* captures is now what the static branch returned (nil after a dead end at a node) *)
+      (* captures is now what the static branch returned (pinned: nil after a dead end at a node) *)
       let wl :=
         match t_wild n with
         | None => (None, [])
         | Some w =>
           let k := next_sep path in
           if Nat.eqb k 0 then (None, []) else
-          match find_node fx2 fx5 m w (sdrop k path) (caps1 ++ [stake k path]) with
-          | (FPanic, cs) => (Some FPanic, cs)
-          | (FRes (Some x) tmp b, cs) => (Some (FRes (Some x) tmp b), cs)
-          | (FRes None _ false, cs) => (Some (FRes None [] false), cs)
-          | (FRes None _ true, cs) => (None, cs)
-          end
+          wild_res (find_node fx2 fx5 m w (sdrop k path) (caps1 ++ [stake k path]))
         end in
       match wl with
       | (Some r, cs2) => (r, cs1 ++ cs2)
       | (None, cs2) =>
         match t_catch n with
         | None => (FRes None caps1 true, cs1 ++ cs2)
-        | Some c =>
-          (* the catch-all child's values are tried with THIS node's keys and the captures so far *)
-          match try_values m (if fx2 then t_keys c else t_keys n)
-                           (if fx2 then caps1 ++ [path] else caps1) (t_values c) with
-          | (None, cs3) => (FPanic, cs1 ++ cs2 ++ cs3)
-          | (Some (Some v), cs3) => (FRes (Some (t_keys c, v)) (caps1 ++ [path]) false, cs1 ++ cs2 ++ cs3)
-          | (Some None, cs3) => (FRes None caps1 (t_bt c), cs1 ++ cs2 ++ cs3)   (* after the repair of C02-F1: the catch-all child's own flag *)
-          end
+        | Some c => let '(r, cs3) := catch_part fx2 m n c path caps1 in (r, cs1 ++ cs2 ++ cs3)
         end
       end
     end
